@@ -66,6 +66,25 @@ def _runs(child, parent, edges):
     return len(rs)
 
 
+def _prime_eval(B, out, c, evaluate):
+    """history independence (every third case): the very same output object is evaluated first while the input's
+    cost dictionary holds other unit costs; the costs are then put back in place.  What the package remembers
+    from the first evaluation must not leak into the one observed."""
+    import json as _json
+    if len(_json.dumps(c)) % 3:
+        return
+    real = dict(B.input.costs)
+    for k in list(B.input.costs):
+        v = B.input.costs[k]
+        B.input.costs[k] = (v + 2) if v != float("inf") and not hasattr(v, "_Infinity__positive") and isinstance(v, (int, float)) else 1
+    try:
+        evaluate(out)
+    except Exception:  # noqa: BLE001 - the priming evaluation is not judged
+        pass
+    B.input.costs.clear()
+    B.input.costs.update(real)
+
+
 def batches(ctx):
     rng = ctx.rng
     quick = ctx.quick()
@@ -111,6 +130,7 @@ def batches(ctx):
     def impl(c):
         B = R.Built(c["S"], c["O"], c["costs"])
         out = B.output_of(c["r"])
+        _prime_eval(B, out, c, lambda o: (o.cost(), [o.node_event(n) for n in B.otree.traverse()]))
         evs = [EV[out.node_event(n).name] for n in B.otree.traverse("preorder") if not n.is_leaf()]
         return {"events": evs, "cost": R.ext_of(out.cost())}
 
@@ -189,6 +209,7 @@ def batches(ctx):
     def impl_lab(c):
         B = R.Built(c["S"], c["O"], c["costs"], labelled=True, unordered=not c["ordered"])
         out = B.output_of(c["t"], labelled=True, ordered=c["ordered"])
+        _prime_eval(B, out, c, lambda o: (o.reconciliation_cost(), o.labeling_cost(), o.cost()))
         rc = R.ext_of(out.reconciliation_cost())
         try:
             lc = int(out.labeling_cost())
